@@ -56,6 +56,31 @@ impl RuntimeFilterPayload {
             RuntimeFilterPayload::Set(set) => set.contains(&v),
         }
     }
+
+    /// Membership mask for a probe key column. The build side publishes its
+    /// keys as i64; a probe column of a narrower integer type (an INTEGER or
+    /// DATE column joined to a BIGINT key) is widened instead of rejected.
+    /// NULL keys never match. `None` for a type the filter cannot test.
+    pub fn mask(&self, col: &dyn arrow::array::Array) -> Option<arrow::array::BooleanArray> {
+        use arrow::array::{Array, BooleanBuilder, Date32Array, Int32Array, Int64Array};
+        let mut b = BooleanBuilder::with_capacity(col.len());
+        if let Some(a) = col.as_any().downcast_ref::<Int64Array>() {
+            for i in 0..a.len() {
+                b.append_value(!a.is_null(i) && self.contains(a.value(i)));
+            }
+        } else if let Some(a) = col.as_any().downcast_ref::<Int32Array>() {
+            for i in 0..a.len() {
+                b.append_value(!a.is_null(i) && self.contains(a.value(i) as i64));
+            }
+        } else if let Some(a) = col.as_any().downcast_ref::<Date32Array>() {
+            for i in 0..a.len() {
+                b.append_value(!a.is_null(i) && self.contains(a.value(i) as i64));
+            }
+        } else {
+            return None;
+        }
+        Some(b.finish())
+    }
 }
 
 /// Runtime join-key filter slot: a hash join publishes its build-side key set
@@ -559,24 +584,11 @@ impl PhysicalOperator for StreamingParquetScanExec {
                             parquet::arrow::arrow_reader::ArrowPredicateFn::new(
                                 mask,
                                 move |batch: RecordBatch| {
-                                    let arr = batch
-                                        .column(0)
-                                        .as_any()
-                                        .downcast_ref::<arrow::array::Int64Array>()
-                                        .ok_or_else(|| {
-                                            arrow::error::ArrowError::ComputeError(
-                                                "runtime filter column is not Int64".into(),
-                                            )
-                                        })?;
-                                    use arrow::array::Array;
-                                    let mut b =
-                                        arrow::array::BooleanBuilder::with_capacity(arr.len());
-                                    for i in 0..arr.len() {
-                                        b.append_value(
-                                            !arr.is_null(i) && set.contains(arr.value(i)),
-                                        );
-                                    }
-                                    Ok(b.finish())
+                                    set.mask(batch.column(0).as_ref()).ok_or_else(|| {
+                                        arrow::error::ArrowError::ComputeError(
+                                            "runtime filter column is not an integer key".into(),
+                                        )
+                                    })
                                 },
                             ),
                         ));
@@ -769,19 +781,9 @@ fn ipc_read_work(
         let col = pos_of(*ridx)?;
         let mut kept = Vec::with_capacity(batches.len());
         for batch in batches {
-            let arr = batch
-                .column(col)
-                .as_any()
-                .downcast_ref::<arrow::array::Int64Array>()
-                .ok_or_else(|| {
-                    QueryError::Execution("runtime filter column is not Int64".into())
-                })?;
-            use arrow::array::Array;
-            let mut b = arrow::array::BooleanBuilder::with_capacity(arr.len());
-            for i in 0..arr.len() {
-                b.append_value(!arr.is_null(i) && set.contains(arr.value(i)));
-            }
-            let mask = b.finish();
+            let mask = set.mask(batch.column(col).as_ref()).ok_or_else(|| {
+                QueryError::Execution("runtime filter column is not an integer key".into())
+            })?;
             let filtered = arrow::compute::filter_record_batch(&batch, &mask)
                 .map_err(|e| QueryError::Execution(e.to_string()))?;
             if filtered.num_rows() > 0 {
